@@ -346,6 +346,21 @@ pub fn families(thorough: bool) -> Vec<Hello> {
             v.push(Hello { exts: vec![Ext::Other(0, body), Ext::SupVer(vec![0x0304]), Ext::SigAlgs(vec![0x0403])], ..Hello::default() });
         }
     }
+    // cipher suites whose code equals the type number of an extension (0x002b = supported_versions, 0x0000 = server_name,
+    // 0x0010 = ALPN, 0x000d = signature_algorithms, 0x000a, 0x0033): a lookup in the wrong list finds them; with and
+    // without the real extension (a supported_versions list that holds ONLY GREASE values is left out: the statement does not
+    // say what its "highest non-GREASE entry" is; the tree answers 1.3)
+    for c in [0x002bu16, 0x0000, 0x0010, 0x000d, 0x000a, 0x0033, 0x0304, 0x0303] {
+        for legacy in [0x0303u16, 0x0301] {
+            for sv in [None, Some(vec![0x0304u16, 0x0303]), Some(vec![0x0a0a, 0x0303])] {
+                let mut exts = vec![Ext::Sni(s("c.example")), Ext::Groups(vec![29, 23]), Ext::SigAlgs(vec![0x0403])];
+                if let Some(v) = sv {
+                    exts.push(Ext::SupVer(v));
+                }
+                v.push(Hello { legacy, ciphers: vec![0xc02f, c, 0x0035], exts, ..Hello::default() });
+            }
+        }
+    }
     // F3: signature-algorithm orders with GREASE inside x ALPN lists x SNI presence
     let sa = [0x0403u16, 0x0804, 0x1a0a, 0x1a1a];
     let alpns: Vec<Option<Vec<String>>> = vec![None, Some(vec![s("h2")]), Some(vec![s("http/1.1")]), Some(vec![s("h2"), s("http/1.1")]), Some(vec![s("h3")]), Some(vec![s("hq-29"), s("h2")]), Some(vec![s("**"), s("h2")]), Some(vec![s("::")]), Some(vec![s("_sip")]), Some(vec![s("h2-")]), Some(vec![s("a b")]), Some(vec![s(" x"), s("h2")]), Some(vec![s("\u{e9}2")]), Some(vec![s("h\u{e9}")]), Some(vec![s("\u{65e5}\u{672c}"), s("h2")]), Some(vec![s("h2\u{1f600}")])];
